@@ -32,6 +32,10 @@ class Param(object):
             else: assert False, t
         if j is not None:
             assert type(type(value)).__name__ == 'EntityMeta'
+            if value._pkval_ is None and value._status_ == 'created':
+                # the key of a new object is known only after its INSERT (the query would flush it anyway, but too late)
+                cache = value._session_cache_
+                if cache is not None and cache.is_alive and not cache.noflush_counter: cache.flush()
             value = value._get_raw_pkval_()[j]
         converter = param.converter
         if value is not None and converter is not None:
